@@ -815,7 +815,6 @@ fn c29_main(args: &Args) -> i32 {
     for row in rows.iter() {
         let rig = Rig::new(&factory);
         let base = rig.srv.rsync_base();
-        let outcome = row["outcome"].as_str().unwrap().to_string();
         let notify = row["notify"].as_bool().unwrap();
         let ca = if notify { rig.ca.clone() } else { ca_cert(&factory, &base, None) };
         let ca2 = if args.thorough() {
@@ -837,7 +836,6 @@ fn c29_main(args: &Args) -> i32 {
             cfg.refresh = std::time::Duration::from_secs(1);
             cfg.rrdp_fallback_time = std::time::Duration::from_secs(0);
         }
-        let _ = &outcome;
         let mut ok = true;
         if copy != "none" {
             // a successful update leaves a local copy (always with RRDP on and a CA announcing RRDP)
@@ -945,17 +943,14 @@ fn c29_case(case: &FbCase) -> Report {
     let mut rep = Report::new("rrdp");
     let row = &case.row;
     let rig = &case.rig;
-    let outcome = row["outcome"].as_str().unwrap();
     let rrdp_on = row["rrdp"].as_bool().unwrap();
     let rsync_on = row["rsync"].as_bool().unwrap();
     let notify = row["notify"].as_bool().unwrap();
-    let expected = row["decision"].as_str().unwrap();
     // was the local state produced?
     let now = chrono::Utc::now().timestamp();
     let local = rig.read_archive();
-    let copy = row["copy"].as_str().unwrap();
-    let result = row["result"].as_str().unwrap();
-    let produced = case.ok && match copy {
+    let copy0 = row["copy"].as_str().unwrap();
+    let produced = case.ok && match copy0 {
         "none" => local.is_none(),
         "current" => local.as_ref().map(|l| l.best_before > now + 60).unwrap_or(false),
         "expired" => local.as_ref().map(|l| l.best_before < now).unwrap_or(false),
@@ -963,94 +958,114 @@ fn c29_case(case: &FbCase) -> Report {
     };
     if !produced {
         rep.add_note(C29, "unrealised_rows", 1);
-        rep.divergence(C29, format!("row {row}: local state {copy} not produced (copy {:?}, now {now})",
+        rep.divergence(C29, format!("row {row}: local state {copy0} not produced (copy {:?}, now {now})",
             local.as_ref().map(|l| (l.serial, l.best_before))));
         return rep
     }
-    // how this run's update goes (Fallback.tla, Results)
+    // the runs use long times: what a successful update leaves stays current for the rest of the history
+    let mut cfg = case.cfg.clone();
+    cfg.refresh = std::time::Duration::from_secs(300);
+    cfg.rrdp_fallback_time = std::time::Duration::from_secs(600);
+    let collector = rig.collector(&cfg);
     let base = rig.srv.rsync_base();
-    let two: Objects = [(format!("{base}o1.roa"), Bytes::from_static(b"object one")),
-                        (format!("{base}o2.roa"), Bytes::from_static(b"object two"))].into_iter().collect();
-    let plan = match (result, copy) {
-        ("ok", "none") => FaultPlan::default(),
-        // on top of a copy: one delta to apply
-        ("ok", _) => { rig.srv.publish(two); FaultPlan::default() }
-        ("delta_fails", _) => {
-            let idx = rig.srv.publish(two);
-            FaultPlan { delta: Some((rig.srv.version(idx).serial, FileFault::Http(404))), ..Default::default() }
-        }
-        ("notify_fails", _) => FaultPlan { notify_status: Some(500), ..Default::default() },
-        // a good notification; the snapshot it needs fails (with a copy: a new session, so that no delta can be tried)
-        ("snapshot_fails", "none") => FaultPlan { snapshot: FileFault::Http(404), ..Default::default() },
-        ("snapshot_fails", _) => { rig.srv.new_session(1, two); FaultPlan { snapshot: FileFault::Http(404), ..Default::default() } }
-        x => panic!("row {x:?}"),
-    };
-    rig.srv.set_faults(plan.clone());
-    rig.bed.take_rsync_log();
-    rig.srv.take_log();
-    let collector = rig.collector(&case.cfg);
-    let run = collector.start();
-    let repo = run.repository(&case.ca);
-    let decision = match repo.as_ref() {
-        Ok(Some(r)) if r.is_rrdp() => "rrdp", Ok(Some(_)) => "rsync", Ok(None) => "none", Err(_) => "failed",
-    };
-    drop(repo);
-    drop(run);
-    let rsync_log = rig.bed.take_rsync_log();
-    let http_log = rig.srv.take_log();
-    rig.srv.clear_faults();
     let module = format!("rsync://{}/repo/", rig.srv.host);
-    let rsync_asked = rsync_log.iter().any(|l| l.starts_with(&module));
-    let rrdp_asked = !http_log.is_empty();
-    let observed = json!({"decision": decision, "rsync_log": rsync_log, "rrdp_requests": http_log.iter().map(|q| format!("{:?}:{}", q.kind, q.status)).collect::<Vec<_>>(),
-                          "local_copy": local.as_ref().map(|l| json!({"serial": l.serial, "best_before_minus_now": l.best_before - now}))});
-    let sig = format!("policy-{}/{}-{}/rrdp-{}/rsync-{}/notify-{}", row["policy"].as_str().unwrap(), copy, result,
-        if rrdp_on { "on" } else { "off" }, if rsync_on { "on" } else { "off" }, if notify { "yes" } else { "no" });
-    rep.eval(C29);
-    rep.trace(C29);
-    rep.nontrivial(C29, sig.clone());
-    if decision != expected {
-        rep.violation(C29, &sig, format!("documented decision {expected}, Run::repository gives {decision}"), row.clone(), observed.clone());
-    }
-    else if rsync_asked != (expected == "rsync") {
-        rep.violation(C29, &format!("{sig}/rsync-log"), format!("decision {decision} but the rsync module was {}fetched", if rsync_asked { "" } else { "not " }),
-            row.clone(), observed.clone());
-    }
-    else if rrdp_asked != (notify && rrdp_on) {
-        rep.violation(C29, &format!("{sig}/rrdp-log"), format!("RRDP requests were {}made although the CA {} RRDP and RRDP is {}",
-            if rrdp_asked { "" } else { "not " }, if notify { "announces" } else { "does not announce" }, if rrdp_on { "enabled" } else { "disabled" }),
-            row.clone(), observed.clone());
-    }
-    if notify && rrdp_on && outcome != "updated" { rep.sample(C29, json!({"row": row, "observed": observed})); }
-    // thorough: a second run in which two CAs of the same repository are looked up by two threads at once
-    if let Some(ca2) = case.ca2.as_ref() {
-        rig.srv.set_faults(plan.clone());
-        let run = collector.start();
-        let decide = |ca: &Arc<CaCert>| -> &'static str {
-            match run.repository(ca) {
-                Ok(Some(r)) if r.is_rrdp() => "rrdp", Ok(Some(_)) => "rsync", Ok(None) => "none", Err(_) => "failed",
+    let runs = row["runs"].as_array().unwrap();
+    let mut nobj = 1u64;
+    let mut path = String::new();
+    for (k, r) in runs.iter().enumerate() {
+        let result = r["result"].as_str().unwrap();
+        let before = r["before"].as_str().unwrap();
+        let outcome = r["outcome"].as_str().unwrap();
+        let expected = r["decision"].as_str().unwrap();
+        // how this run's update goes (Fallback.tla, Results)
+        nobj += 1;
+        let more: Objects = (1..=nobj).map(|i| (format!("{base}o{i}.roa"), Bytes::from(format!("object {i}")))).collect();
+        let plan = match (result, before) {
+            ("ok", "none") => FaultPlan::default(),
+            // on top of a copy: one delta to apply
+            ("ok", _) => { rig.srv.publish(more); FaultPlan::default() }
+            ("delta_fails", _) => {
+                let idx = rig.srv.publish(more);
+                FaultPlan { delta: Some((rig.srv.version(idx).serial, FileFault::Http(404))), ..Default::default() }
             }
+            ("notify_fails", _) => FaultPlan { notify_status: Some(500), ..Default::default() },
+            // a good notification; the snapshot it needs fails (with a copy: a new session, so that no delta can be tried)
+            ("snapshot_fails", "none") => FaultPlan { snapshot: FileFault::Http(404), ..Default::default() },
+            ("snapshot_fails", _) => { rig.srv.new_session(1, more); FaultPlan { snapshot: FileFault::Http(404), ..Default::default() } }
+            x => panic!("row {x:?}"),
         };
-        let (d1, d2) = std::thread::scope(|s| {
-            let t1 = s.spawn(|| decide(&case.ca));
-            let t2 = s.spawn(|| decide(ca2));
-            (t1.join().unwrap_or("panic"), t2.join().unwrap_or("panic"))
-        });
+        rig.srv.set_faults(plan.clone());
+        rig.bed.take_rsync_log();
+        rig.srv.take_log();
+        let run = collector.start();
+        let repo = run.repository(&case.ca);
+        let decision = match repo.as_ref() {
+            Ok(Some(r)) if r.is_rrdp() => "rrdp", Ok(Some(_)) => "rsync", Ok(None) => "none", Err(_) => "failed",
+        };
+        drop(repo);
         drop(run);
         let rsync_log = rig.bed.take_rsync_log();
         let http_log = rig.srv.take_log();
         rig.srv.clear_faults();
-        let fetches = rsync_log.iter().filter(|l| l.starts_with(&module)).count();
-        let notifies = http_log.iter().filter(|q| matches!(q.kind, ReqKind::Notify)).count();
-        let observed = json!({"decisions": [d1, d2], "rsync_fetches": fetches, "notification_requests": notifies});
+        let rsync_asked = rsync_log.iter().any(|l| l.starts_with(&module));
+        let rrdp_asked = !http_log.is_empty();
+        let local = rig.read_archive();
+        let now = chrono::Utc::now().timestamp();
+        let observed = json!({"run": k + 1, "decision": decision, "rsync_log": rsync_log,
+                              "rrdp_requests": http_log.iter().map(|q| format!("{:?}:{}", q.kind, q.status)).collect::<Vec<_>>(),
+                              "local_copy_after": local.as_ref().map(|l| json!({"serial": l.serial, "best_before_minus_now": l.best_before - now}))});
+        path = if k == 0 { format!("{before}-{result}") } else { format!("{path}+{result}") };
+        let sig = format!("policy-{}/{}/rrdp-{}/rsync-{}/notify-{}", row["policy"].as_str().unwrap(), path,
+            if rrdp_on { "on" } else { "off" }, if rsync_on { "on" } else { "off" }, if notify { "yes" } else { "no" });
         rep.eval(C29);
-        rep.nontrivial(C29, format!("{sig}/two-cas"));
-        if d1 != expected || d2 != expected {
-            rep.violation(C29, &format!("{sig}/two-cas"), format!("documented decision {expected}, two CAs of the repository get {d1} and {d2}"),
-                row.clone(), observed);
+        rep.trace(C29);
+        rep.nontrivial(C29, sig.clone());
+        if decision != expected {
+            rep.violation(C29, &sig, format!("run {}: the copy was {before} and the update {}: documented decision {expected}, Run::repository gives {decision}",
+                k + 1, result.replace('_', " ")), row.clone(), observed.clone());
         }
-        else if fetches > 1 || notifies > 1 {
-            rep.divergence(C29, format!("row {row}: two CAs of one repository caused {fetches} rsync fetches and {notifies} notification requests"));
+        else if rsync_asked != (expected == "rsync") {
+            rep.violation(C29, &format!("{sig}/rsync-log"), format!("run {}: decision {decision} but the rsync module was {}fetched", k + 1, if rsync_asked { "" } else { "not " }),
+                row.clone(), observed.clone());
+        }
+        else if rrdp_asked != (notify && rrdp_on) {
+            rep.violation(C29, &format!("{sig}/rrdp-log"), format!("run {}: RRDP requests were {}made although the CA {} RRDP and RRDP is {}", k + 1,
+                if rrdp_asked { "" } else { "not " }, if notify { "announces" } else { "does not announce" }, if rrdp_on { "enabled" } else { "disabled" }),
+                row.clone(), observed.clone());
+        }
+        if notify && rrdp_on && outcome != "updated" && k + 1 == runs.len() { rep.sample(C29, json!({"row": row, "observed": observed})); }
+        // thorough: after the last run, one more in which two CAs of the same repository are looked up by two threads at once
+        if let (Some(ca2), true) = (case.ca2.as_ref(), k + 1 == runs.len()) {
+            // the copy is now what this run left: an update that went well has nothing left to do
+            let again = match result { "ok" | "delta_fails" => FaultPlan::default(), _ => plan.clone() };
+            rig.srv.set_faults(again);
+            let run = collector.start();
+            let decide = |ca: &Arc<CaCert>| -> &'static str {
+                match run.repository(ca) {
+                    Ok(Some(r)) if r.is_rrdp() => "rrdp", Ok(Some(_)) => "rsync", Ok(None) => "none", Err(_) => "failed",
+                }
+            };
+            let (d1, d2) = std::thread::scope(|s| {
+                let t1 = s.spawn(|| decide(&case.ca));
+                let t2 = s.spawn(|| decide(ca2));
+                (t1.join().unwrap_or("panic"), t2.join().unwrap_or("panic"))
+            });
+            drop(run);
+            let rsync_log = rig.bed.take_rsync_log();
+            let http_log = rig.srv.take_log();
+            rig.srv.clear_faults();
+            let fetches = rsync_log.iter().filter(|l| l.starts_with(&module)).count();
+            let notifies = http_log.iter().filter(|q| matches!(q.kind, ReqKind::Notify)).count();
+            let observed = json!({"decisions": [d1, d2], "rsync_fetches": fetches, "notification_requests": notifies});
+            rep.eval(C29);
+            rep.nontrivial(C29, format!("{sig}/two-cas"));
+            if d1 != expected || d2 != expected {
+                rep.violation(C29, &format!("{sig}/two-cas"), format!("documented decision {expected}, two CAs of the repository get {d1} and {d2}"),
+                    row.clone(), observed);
+            }
+            else if fetches > 1 || notifies > 1 {
+                rep.divergence(C29, format!("row {row}: two CAs of one repository caused {fetches} rsync fetches and {notifies} notification requests"));
+            }
         }
     }
     rep
